@@ -60,20 +60,119 @@ def _alpha(fn):
     return R().visit(copy.deepcopy(fn))
 
 
+def _stored_names(fn):
+    """every name bound inside `fn`: assignments, loop / with / except targets, comprehension variables, lambdas"""
+    out = {}
+    for node in ast.walk(fn):
+        if isinstance(node, ast.Name) and isinstance(node.ctx, (ast.Store, ast.Del)):
+            out[node.id] = out.get(node.id, 0) + 1
+        elif isinstance(node, ast.ExceptHandler) and node.name:
+            out[node.name] = out.get(node.name, 0) + 1
+        elif isinstance(node, ast.Lambda):
+            for a in node.args.args:
+                out[a.arg] = out.get(a.arg, 0) + 2
+    return out
+
+
+class _Subst(ast.NodeTransformer):
+    def __init__(self, env):
+        self.env = env
+
+    def visit_Name(self, node):
+        if isinstance(node.ctx, ast.Load) and node.id in self.env:
+            import copy
+
+            return copy.deepcopy(self.env[node.id])
+        return node
+
+
+def _normaliser(fn):
+    """-> norm(expr) -> str. Canonical text of an expression of `fn`, independent of how the function names or
+    introduces its locals:
+      * a local that is assigned exactly once by a plain `name = <expr>` is *inlined* (recursively) - so
+        renaming it, adding an unused local, or naming a sub-expression (`d = {"", "ai.onnx"}; if not s & d`)
+        changes nothing;
+      * parameters become p0, p1, … by position (`self` stays);
+      * every other bound name (comprehension / loop variables, names assigned more than once) becomes
+        b0, b1, … by first occurrence *within the normalised expression itself*.
+    What still changes the text: a different expression, a different order of exits, another guard - i.e. a
+    change of the control flow or of what is computed."""
+    import copy
+
+    params = [a.arg for a in fn.args.posonlyargs + fn.args.args + fn.args.kwonlyargs]
+    stored = _stored_names(fn)
+    env = {}
+    for node in ast.walk(fn):  # breadth-first; RHSs are substituted lazily below, so order does not matter
+        if isinstance(node, ast.Assign) and len(node.targets) == 1 and isinstance(node.targets[0], ast.Name):
+            n = node.targets[0].id
+            if stored.get(n) == 1 and n not in params:
+                env[n] = node.value
+        elif isinstance(node, ast.AnnAssign) and isinstance(node.target, ast.Name) and node.value is not None:
+            n = node.target.id
+            if stored.get(n) == 1 and n not in params:
+                env[n] = node.value
+
+    def expand(e, depth=0):
+        e = copy.deepcopy(e)
+        for _ in range(12):  # nested single-assignment locals
+            before = ast.dump(e)
+            e = _Subst(env).visit(ast.Expression(body=e)).body
+            if ast.dump(e) == before:
+                break
+        return e
+
+    pmap = {n: (n if n == "self" else f"p{i}") for i, n in enumerate(params)}
+
+    def norm(e) -> str:
+        e = expand(e)
+        order = {}
+
+        class R(ast.NodeTransformer):
+            def visit_Name(self, node):
+                if node.id in pmap:
+                    return ast.copy_location(ast.Name(id=pmap[node.id], ctx=node.ctx), node)
+                if node.id in stored:
+                    order.setdefault(node.id, f"b{len(order)}")
+                    return ast.copy_location(ast.Name(id=order[node.id], ctx=node.ctx), node)
+                return node
+
+            def visit_arg(self, node):
+                if node.arg in stored:
+                    order.setdefault(node.arg, f"b{len(order)}")
+                    node.arg = order[node.arg]
+                return node
+
+        # comprehension targets occur after their use in source order; visit generators first
+        class Pre(ast.NodeVisitor):
+            def visit_comp(self, node):
+                for g in node.generators:
+                    for t in ast.walk(g.target):
+                        if isinstance(t, ast.Name) and t.id in stored and t.id not in pmap:
+                            order.setdefault(t.id, f"b{len(order)}")
+                self.generic_visit(node)
+
+            visit_ListComp = visit_SetComp = visit_DictComp = visit_GeneratorExp = visit_comp
+
+        Pre().visit(e)
+        return ast.unparse(R().visit(e))
+
+    return norm
+
+
 def exits_of(fn: ast.FunctionDef):
-    """[(kind, value, guards)] in source order; nested function bodies are not entered. Locals and
-    parameters are alpha-renamed first."""
-    fn = _alpha(fn)
+    """[(kind, value, guards)] in source order; nested function bodies are not entered. All texts are
+    normalised by `_normaliser` (single-assignment locals inlined, parameters p0…, bound names b0…)."""
+    norm = _normaliser(fn)
     out = []
 
     def walk(stmts, guards):
         for st in stmts:
             if isinstance(st, ast.Return):
-                out.append(("return", "" if st.value is None else ast.unparse(st.value), list(guards)))
+                out.append(("return", "" if st.value is None else norm(st.value)[:160], list(guards)))
             elif isinstance(st, ast.Raise):
-                out.append(("raise", "" if st.exc is None else ast.unparse(st.exc)[:60], list(guards)))
+                out.append(("raise", "" if st.exc is None else norm(st.exc)[:60], list(guards)))
             elif isinstance(st, ast.If):
-                t = ast.unparse(st.test)
+                t = norm(st.test)
                 walk(st.body, guards + [t])
                 walk(st.orelse, guards + [f"not ({t})"])
             elif isinstance(st, (ast.For, ast.While)):
@@ -92,13 +191,27 @@ def exits_of(fn: ast.FunctionDef):
 
 
 def calls_of(fn) -> list:
-    names = set()
+    """names called in `fn`; assignments to locals that are never read are dropped first (an unused
+    `_n = len(protos)` is not a processing step)"""
+    loaded = {n.id for n in ast.walk(fn) if isinstance(n, ast.Name) and isinstance(n.ctx, ast.Load)}
+    dead = set()
     for node in ast.walk(fn):
+        if isinstance(node, ast.Assign) and all(isinstance(t, ast.Name) and t.id not in loaded for t in node.targets):
+            dead.add(id(node))
+    names = set()
+
+    def visit(node):
+        if id(node) in dead:
+            return
         if isinstance(node, ast.Call):
             try:
                 names.add(ast.unparse(node.func))
             except Exception:  # noqa: BLE001
                 names.add("<call>")
+        for ch in ast.iter_child_nodes(node):
+            visit(ch)
+
+    visit(fn)
     return sorted(names)
 
 
